@@ -26,6 +26,7 @@ type OVec struct {
 	Filter bool      `json:"filter"`
 	Elig   Ints      `json:"elig"`
 	R      []OVecHit `json:"r"`
+	ExNil  bool      `json:"exnil"`
 }
 
 type OVStat struct {
